@@ -35,7 +35,7 @@ ENGINE_OF = {"C03": "E2", "C08": "E2", "C09": "E2", "C15": "E2", "C10": "E1", "C
 TIERS = {
     # engine: tier: (runs, workers, wall seconds for the batch)
     "E2": {"quick": (2400, 8, 60), "thorough": (160000, 16, 900)},
-    "E1": {"quick": (1200, 8, 75), "thorough": (60000, 16, 900)},
+    "E1": {"quick": (1200, 8, 90), "thorough": (60000, 16, 900)},
 }
 
 COMPONENTS = {
@@ -243,7 +243,9 @@ def check(prop, tier, runs=None, workers=None, wall=None):
         if kf:
             # the listed finding explains this member of the group; the other members must be
             # explained by it too, or one of them is reported as the new violation it is
-            for r3, v3 in items[1:13]:
+            # members that no listed finding can explain (decided without executing) first
+            rest = sorted(items[1:], key=lambda rv: 0 if (rv[0].get("plan") and findings.surely_unlisted(prop, rv[1], rv[0]["plan"])) else 1)
+            for r3, v3 in rest[:12]:
                 try:
                     rec3 = shrink.run_plan(mod, r3["plan"])
                 except runner.HarnessError:
